@@ -324,6 +324,50 @@ func init() {
 			})
 		}
 		f.boolFact("pruneSearchChecked", searches > 0 && guards >= searches)
+		// C14: transaction.Commit refuses a committed transaction and skips branches it already moved;
+		// Discard checks the status before deleting staged refs
+		tc := f.funcDecl("pkg/transaction/transaction.go", "", "Commit")
+		statusCheck, skipApplied := false, false
+		if tc != nil {
+			ast.Inspect(tc.Body, func(n ast.Node) bool {
+				if is, ok := n.(*ast.IfStmt); ok {
+					c := f.src(is.Cond)
+					if c == "tx.Status == ref.TSCommitted" {
+						for _, st := range is.Body.List {
+							if _, ok := st.(*ast.ReturnStmt); ok {
+								statusCheck = true
+							}
+						}
+					}
+					if is.Init != nil && strings.Contains(f.src(is.Init), "applied[ref.HeadRef(branch)]") {
+						for _, st := range is.Body.List {
+							if bs, ok := st.(*ast.BranchStmt); ok && bs.Tok == token.CONTINUE {
+								skipApplied = true
+							}
+						}
+					}
+				}
+				return true
+			})
+		}
+		f.boolFact("txCommitGuarded", statusCheck && skipApplied)
+		td := f.funcDecl("pkg/transaction/transaction.go", "", "Discard")
+		guardFirst := false
+		if td != nil && td.Body != nil {
+			// the status check must come before the call that deletes the staged refs
+			sawCheck := false
+			for _, st := range td.Body.List {
+				src := f.src(st)
+				if strings.Contains(src, "tx.Status == ref.TSCommitted") {
+					sawCheck = true
+				}
+				if strings.Contains(src, "DeleteTransactionRefs") {
+					guardFirst = sawCheck
+					break
+				}
+			}
+		}
+		f.boolFact("txDiscardGuardFirst", guardFirst)
 		// C06: packfile header bit count
 		eh := f.funcDecl("pkg/encoding/packfile/packfile.go", "", "encodeObjTypeAndLen")
 		bt := f.declType(eh, "bits")
@@ -400,5 +444,68 @@ func init() {
 			}
 		}
 		f.emit("readModeSingleSites", "List String", leanStrList(singles), singles)
+	})
+}
+
+// callOrder returns, in source order, which of the given call expressions (printed Fun) occur in fd.
+func (f *Facts) callOrder(fd *ast.FuncDecl, names map[string]string) []string {
+	type hit struct {
+		pos  token.Pos
+		name string
+	}
+	var hits []hit
+	if fd == nil {
+		return nil
+	}
+	ast.Inspect(fd.Body, func(n ast.Node) bool {
+		if c, ok := n.(*ast.CallExpr); ok {
+			if label, ok := names[f.src(c.Fun)]; ok {
+				hits = append(hits, hit{c.Pos(), label})
+			}
+		}
+		return true
+	})
+	// stable by position
+	for i := 1; i < len(hits); i++ {
+		for j := i; j > 0 && hits[j].pos < hits[j-1].pos; j-- {
+			hits[j], hits[j-1] = hits[j-1], hits[j]
+		}
+	}
+	var out []string
+	seen := map[string]bool{}
+	for _, h := range hits {
+		if !seen[h.name] {
+			seen[h.name] = true
+			out = append(out, h.name)
+		}
+	}
+	return out
+}
+
+func (f *Facts) strListFact(name string, l []string) {
+	f.emit(name, "List String", leanStrList(l), l)
+}
+
+func init() {
+	extra = append(extra, func(f *Facts) {
+		// C13: order of store writes in each operation (source order of the calls)
+		f.strListFact("writeOrderInsertBlock", f.callOrder(f.funcDecl("pkg/ingest/inserter.go", "Inserter", "insertBlock"),
+			map[string]string{"objects.SaveBlock": "blk", "objects.SaveBlockIndex": "blkidx"}))
+		f.strListFact("writeOrderIngest", f.callOrder(f.funcDecl("pkg/ingest/inserter.go", "Inserter", "ingestTableFromBlocks"),
+			map[string]string{"i.wg.Wait": "blocks", "objects.SaveTable": "tbl", "objects.SaveTableIndex": "tblidx", "objects.SaveTableProfile": "tblsum"}))
+		f.strListFact("writeOrderReceiveTable", f.callOrder(f.funcDecl("pkg/api/utils/object_receiver.go", "ObjectReceiver", "saveTable"),
+			map[string]string{"objects.SaveTable": "tbl", "ingest.IndexTable": "index", "ingest.ProfileTable": "tblsum"}))
+		f.strListFact("writeOrderIndexTable", f.callOrder(f.funcDecl("pkg/ingest/index.go", "", "IndexTable"),
+			map[string]string{"objects.SaveBlockIndex": "blkidx", "objects.SaveTableIndex": "tblidx"}))
+		f.strListFact("writeOrderCommitCmd", f.callOrder(f.funcDecl("cmd/wrgl/commit_cmd.go", "", "commit"),
+			map[string]string{"ingestTable": "table", "objects.SaveCommit": "com", "saveHead": "ref"}))
+		f.strListFact("writeOrderMergeCommit", f.callOrder(f.funcDecl("cmd/wrgl/merge_cmd.go", "", "createMergeCommit"),
+			map[string]string{"objects.SaveCommit": "com", "ref.CommitMerge": "ref"}))
+		f.strListFact("writeOrderMergeResult", f.callOrder(f.funcDecl("cmd/wrgl/merge_cmd.go", "", "commitMergeResult"),
+			map[string]string{"ingest.IngestTableFromBlocks": "table", "ingest.ProfileTable": "tblsum", "createMergeCommit": "commit"}))
+		f.strListFact("writeOrderPrune", f.callOrder(f.funcDecl("pkg/prune/prune.go", "", "Prune"),
+			map[string]string{"pruneTables": "tables", "objects.DeleteBlock": "blk", "objects.DeleteBlockIndex": "blkidx", "objects.DeleteCommit": "com"}))
+		f.strListFact("writeOrderTxCommit", f.callOrder(f.funcDecl("pkg/transaction/transaction.go", "", "Commit"),
+			map[string]string{"objects.SaveCommit": "com", "ref.SaveRef": "ref", "rs.UpdateTransaction": "status"}))
 	})
 }
